@@ -22,7 +22,11 @@ fn sim_dir() -> PathBuf {
         return PathBuf::from(d);
     }
     let exe = std::env::current_exe().expect("current exe");
-    exe.parent().and_then(|p| p.parent()).and_then(|p| p.parent()).expect("sim dir").to_path_buf()
+    exe.parent()
+        .and_then(|p| p.parent())
+        .and_then(|p| p.parent())
+        .expect("sim dir")
+        .to_path_buf()
 }
 
 fn verif_dir() -> PathBuf {
@@ -36,16 +40,41 @@ fn repo_dir() -> PathBuf {
 /// Directory of the generated corpus workspace. A scratch copy of the repository (LEXSIM_REPO, used
 /// for sensitivity experiments) gets its own directory so that it does not evict /repo's build.
 fn gen_dir_name(base: &str) -> String {
+    match tag() {
+        None => base.to_string(),
+        Some(t) => format!("{}-{}", base, t),
+    }
+}
+
+/// Scratch copies get their own generated workspace AND their own cargo target directory: cargo
+/// "uplifts" binaries to <target>/debug/<name>, so two repositories sharing a target directory
+/// would overwrite each other's corpus binaries.
+fn tag() -> Option<String> {
+    if let Ok(t) = std::env::var("LEXSIM_TAG") {
+        if !t.is_empty() {
+            return Some(t);
+        }
+    }
     let r = repo_dir();
     if r == Path::new("/repo") {
-        base.to_string()
+        None
     } else {
-        format!("{}-{:08x}", base, simcore::fx::hash_of(&r.to_string_lossy().to_string()) as u32)
+        Some(format!("{:08x}", simcore::fx::hash_of(&r.to_string_lossy().to_string()) as u32))
+    }
+}
+
+fn target_dir() -> PathBuf {
+    match tag() {
+        None => sim_dir().join("target"),
+        Some(t) => sim_dir().join(format!("target-{}", t)),
     }
 }
 
 fn corpus_seed(seed: u64) -> u64 {
-    std::env::var("LEXSIM_CORPUS_SEED").ok().and_then(|s| s.trim().parse().ok()).unwrap_or(seed)
+    std::env::var("LEXSIM_CORPUS_SEED")
+        .ok()
+        .and_then(|s| s.trim().parse().ok())
+        .unwrap_or(seed)
 }
 
 fn harness_error(msg: &str) -> ! {
@@ -62,7 +91,8 @@ fn write_if_changed(path: &Path, content: &str) {
     if let Some(p) = path.parent() {
         let _ = std::fs::create_dir_all(p);
     }
-    std::fs::write(path, content).unwrap_or_else(|e| harness_error(&format!("write {:?}: {}", path, e)));
+    std::fs::write(path, content)
+        .unwrap_or_else(|e| harness_error(&format!("write {:?}: {}", path, e)));
 }
 
 struct Sizes {
@@ -98,12 +128,18 @@ fn sizes(property: &str, tier: &str) -> Sizes {
         (_, false) => 10_000,
         (_, true) => 100_000,
     };
-    let scale: f64 = std::env::var("LEXSIM_SCALE").ok().and_then(|s| s.parse().ok()).unwrap_or(1.0);
+    let scale: f64 = std::env::var("LEXSIM_SCALE")
+        .ok()
+        .and_then(|s| s.parse().ok())
+        .unwrap_or(1.0);
     Sizes {
         per_crate: if thorough { 100 } else { 40 },
         rounds: if thorough { 8 } else { 1 },
         base_runs: ((base_runs as f64) * scale).max(1.0) as u64,
-        build_timeout: std::env::var("LEXSIM_BUILD_TIMEOUT").ok().and_then(|s| s.parse().ok()).unwrap_or(if thorough { 900 } else { 300 }),
+        build_timeout: std::env::var("LEXSIM_BUILD_TIMEOUT")
+            .ok()
+            .and_then(|s| s.parse().ok())
+            .unwrap_or(if thorough { 900 } else { 300 }),
         run_timeout: if thorough { 3600 } else { 900 },
     }
 }
@@ -121,7 +157,10 @@ fn corpus(seed: u64, round: u32, per_crate: usize) -> (Vec<CrateSpec>, usize) {
         seedp.push((idx, p));
         idx += 1;
     }
-    crates.push(CrateSpec { name: "c_seed".into(), programs: seedp });
+    crates.push(CrateSpec {
+        name: "c_seed".into(),
+        programs: seedp,
+    });
     for k in 0..N_CRATES {
         let mut r = Rng::stream(mix(seed, round as u64), "corpus", k as u64);
         let knobs = Knobs::draw(&mut r);
@@ -130,7 +169,10 @@ fn corpus(seed: u64, round: u32, per_crate: usize) -> (Vec<CrateSpec>, usize) {
             ps.push((idx, gen_program(&mut r, &knobs)));
             idx += 1;
         }
-        crates.push(CrateSpec { name: format!("c_{:02}", k), programs: ps });
+        crates.push(CrateSpec {
+            name: format!("c_{:02}", k),
+            programs: ps,
+        });
     }
     (crates, idx)
 }
@@ -174,7 +216,10 @@ fn write_workspace(dir: &Path, crates: &[CrateSpec]) {
         let _ = std::fs::copy(sim_dir().join("Cargo.lock"), dir.join("Cargo.lock"));
     }
     for c in crates {
-        write_if_changed(&dir.join(&c.name).join("Cargo.toml"), &crate_manifest(&c.name));
+        write_if_changed(
+            &dir.join(&c.name).join("Cargo.toml"),
+            &crate_manifest(&c.name),
+        );
         write_if_changed(&dir.join(&c.name).join("src/main.rs"), &crate_source(c));
     }
     // remove stale crate directories so that the workspace stays exactly what was planned
@@ -189,15 +234,22 @@ fn write_workspace(dir: &Path, crates: &[CrateSpec]) {
 }
 
 /// Runs cargo under a watchdog; returns the executables it reported as up to date.
-fn build(dir: &Path, crates: &[CrateSpec], timeout: u64) -> (BTreeMap<String, PathBuf>, Vec<String>) {
+fn build(
+    dir: &Path,
+    crates: &[CrateSpec],
+    timeout: u64,
+) -> (BTreeMap<String, PathBuf>, Vec<String>) {
     let mut cmd = Command::new("cargo");
-    cmd.arg("build").arg("--offline").arg("--keep-going").arg("--message-format=json");
+    cmd.arg("build")
+        .arg("--offline")
+        .arg("--keep-going")
+        .arg("--message-format=json");
     for c in crates {
         cmd.arg("-p").arg(&c.name);
     }
     cmd.current_dir(dir)
         .env("CARGO_NET_OFFLINE", "true")
-        .env("CARGO_TARGET_DIR", sim_dir().join("target"))
+        .env("CARGO_TARGET_DIR", target_dir())
         .stdout(Stdio::piped())
         .stderr(Stdio::piped());
     unsafe {
@@ -206,7 +258,9 @@ fn build(dir: &Path, crates: &[CrateSpec], timeout: u64) -> (BTreeMap<String, Pa
             Ok(())
         });
     }
-    let mut child = cmd.spawn().unwrap_or_else(|e| harness_error(&format!("cannot start cargo: {}", e)));
+    let mut child = cmd
+        .spawn()
+        .unwrap_or_else(|e| harness_error(&format!("cannot start cargo: {}", e)));
     let pid = child.id() as i32;
     let stdout = child.stdout.take().unwrap();
     let stderr = child.stderr.take().unwrap();
@@ -215,7 +269,9 @@ fn build(dir: &Path, crates: &[CrateSpec], timeout: u64) -> (BTreeMap<String, Pa
         for line in BufReader::new(stdout).lines().map_while(Result::ok) {
             if let Ok(v) = serde_json::from_str::<serde_json::Value>(&line) {
                 if v["reason"] == "compiler-artifact" {
-                    if let (Some(name), Some(exe)) = (v["target"]["name"].as_str(), v["executable"].as_str()) {
+                    if let (Some(name), Some(exe)) =
+                        (v["target"]["name"].as_str(), v["executable"].as_str())
+                    {
                         exes.insert(name.to_string(), PathBuf::from(exe));
                     }
                 }
@@ -265,13 +321,24 @@ fn build(dir: &Path, crates: &[CrateSpec], timeout: u64) -> (BTreeMap<String, Pa
                         in_crate = true;
                     }
                 }
-                format!("does not expand or compile ({}){}", first_err, if in_crate { "" } else { " [see cargo output]" })
+                format!(
+                    "does not expand or compile ({}){}",
+                    first_err,
+                    if in_crate { "" } else { " [see cargo output]" }
+                )
             };
             warnings.push(format!("corpus crate {} dropped: {}", c.name, why));
         }
     }
     if exes.is_empty() {
-        eprintln!("{}", errs.lines().filter(|l| !l.contains("warning")).take(40).collect::<Vec<_>>().join("\n"));
+        eprintln!(
+            "{}",
+            errs.lines()
+                .filter(|l| !l.contains("warning"))
+                .take(40)
+                .collect::<Vec<_>>()
+                .join("\n")
+        );
     }
     (exes, warnings)
 }
@@ -282,11 +349,13 @@ enum WorkerOut {
     Stats(Box<Stats>),
     Described(Box<ReplayFile>),
     Replay(serde_json::Value),
+    Many(serde_json::Value),
 }
 
 fn spawn_worker(exe: &Path, args: &WorkerArgs, tmp: &Path, tag: &str) -> std::process::Child {
     let path = tmp.join(format!("args-{}.json", tag));
-    std::fs::write(&path, serde_json::to_string(args).unwrap()).unwrap_or_else(|e| harness_error(&format!("{}", e)));
+    std::fs::write(&path, serde_json::to_string(args).unwrap())
+        .unwrap_or_else(|e| harness_error(&format!("{}", e)));
     Command::new(exe)
         .arg(format!("@{}", path.display()))
         .stdout(Stdio::piped())
@@ -324,6 +393,7 @@ fn read_worker(child: &mut std::process::Child) -> Vec<WorkerOut> {
                 }
             }
             Some("replay") => outs.push(WorkerOut::Replay(v.clone())),
+            Some("many") => outs.push(WorkerOut::Many(v.clone())),
             _ => {}
         }
     }
@@ -340,12 +410,25 @@ struct RoundResult {
     crashed_workers: Vec<String>,
 }
 
-fn run_round(property: &str, tier: &str, seed: u64, round: u32, sz: &Sizes, gen_dir: &Path) -> RoundResult {
+fn run_round(
+    property: &str,
+    tier: &str,
+    seed: u64,
+    round: u32,
+    sz: &Sizes,
+    gen_dir: &Path,
+) -> RoundResult {
     let (crates, total) = corpus(corpus_seed(seed), round, sz.per_crate);
     write_workspace(gen_dir, &crates);
     let t_build = Instant::now();
     let (exes, warnings) = build(gen_dir, &crates, sz.build_timeout);
-    eprintln!("[lexsim] round {}: built {}/{} corpus crates in {:.1} s", round, exes.len(), crates.len(), t_build.elapsed().as_secs_f64());
+    eprintln!(
+        "[lexsim] round {}: built {}/{} corpus crates in {:.1} s",
+        round,
+        exes.len(),
+        crates.len(),
+        t_build.elapsed().as_secs_f64()
+    );
     if exes.is_empty() {
         harness_error("no corpus binary could be built");
     }
@@ -360,7 +443,10 @@ fn run_round(property: &str, tier: &str, seed: u64, round: u32, sz: &Sizes, gen_
         programs_built: 0,
         crashed_workers: vec![],
     };
-    let hang_secs: u64 = std::env::var("LEXSIM_HANG_SECS").ok().and_then(|s| s.parse().ok()).unwrap_or(60);
+    let hang_secs: u64 = std::env::var("LEXSIM_HANG_SECS")
+        .ok()
+        .and_then(|s| s.parse().ok())
+        .unwrap_or(60);
     let mut handles = vec![];
     for c in &crates {
         let exe = match exes.get(&c.name) {
@@ -381,6 +467,7 @@ fn run_round(property: &str, tier: &str, seed: u64, round: u32, sz: &Sizes, gen_
             hang_secs,
             replay: None,
             describe: None,
+            many: None,
         };
         let tmp = tmp.clone();
         let name = c.name.clone();
@@ -432,7 +519,8 @@ fn run_round(property: &str, tier: &str, seed: u64, round: u32, sz: &Sizes, gen_
                         dargs.mode = "describe".into();
                         dargs.describe = Some((base, variant as u32, 0));
                         dargs.start_base = base;
-                        let mut dchild = spawn_worker(&exe, &dargs, &tmp, &format!("{}-d{}", name, attempt));
+                        let mut dchild =
+                            spawn_worker(&exe, &dargs, &tmp, &format!("{}-d{}", name, attempt));
                         for o in read_worker(&mut dchild) {
                             if let WorkerOut::Described(rf) = o {
                                 hangs.push(*rf);
@@ -443,7 +531,10 @@ fn run_round(property: &str, tier: &str, seed: u64, round: u32, sz: &Sizes, gen_
                     }
                     None => {
                         if !got_stats {
-                            crashed = Some(format!("worker {} ended without statistics (status {:?})", name, status));
+                            crashed = Some(format!(
+                                "worker {} ended without statistics (status {:?})",
+                                name, status
+                            ));
                         }
                         break;
                     }
@@ -479,7 +570,10 @@ struct Known {
 
 fn finding_key(rf: &ReplayFile) -> String {
     let text: String = rf.spec.text.iter().collect();
-    format!("{:016x}", simcore::fx::hash_of(&(&rf.definition, &text, rf.spec.unfused_at, &rf.class)))
+    format!(
+        "{:016x}",
+        simcore::fx::hash_of(&(&rf.definition, &text, rf.spec.unfused_at, &rf.class))
+    )
 }
 
 fn load_known() -> Known {
@@ -516,7 +610,10 @@ fn load_known() -> Known {
 
 fn replay_build(rf: &ReplayFile) -> Option<PathBuf> {
     let dir = sim_dir().join(gen_dir_name("genr"));
-    let c = CrateSpec { name: "c_replay".into(), programs: vec![(rf.program_index, rf.program.clone())] };
+    let c = CrateSpec {
+        name: "c_replay".into(),
+        programs: vec![(rf.program_index, rf.program.clone())],
+    };
     write_workspace(&dir, std::slice::from_ref(&c));
     let (exes, warnings) = build(&dir, std::slice::from_ref(&c), 300);
     for w in warnings {
@@ -546,6 +643,7 @@ fn replay_run(rf: &ReplayFile) -> Option<(bool, serde_json::Value)> {
             hang_secs: 20,
             replay: Some(rf.clone()),
             describe: None,
+            many: None,
         };
         let mut child = spawn_worker(&exe, &args, &tmp, "replay");
         let t0 = Instant::now();
@@ -556,7 +654,10 @@ fn replay_run(rf: &ReplayFile) -> Option<(bool, serde_json::Value)> {
                     if t0.elapsed().as_secs() > 20 {
                         let _ = child.kill();
                         let _ = child.wait();
-                        return Some((true, serde_json::json!({"reproduced": true, "note": "still hangs (killed after 20 s)"})));
+                        return Some((
+                            true,
+                            serde_json::json!({"reproduced": true, "note": "still hangs (killed after 20 s)"}),
+                        ));
                     }
                     std::thread::sleep(Duration::from_millis(50));
                 }
@@ -584,6 +685,7 @@ fn replay_run(rf: &ReplayFile) -> Option<(bool, serde_json::Value)> {
         hang_secs: 60,
         replay: Some(rf.clone()),
         describe: None,
+        many: None,
     };
     let mut child = spawn_worker(&exe, &args, &tmp, "replay");
     let outs = read_worker(&mut child);
@@ -596,9 +698,112 @@ fn replay_run(rf: &ReplayFile) -> Option<(bool, serde_json::Value)> {
     None
 }
 
+/// Program-level shrinking (DESIGN.md §7): all one-step simplifications of the program are emitted
+/// as one crate, compiled once, and the smallest one that still shows the class is kept; <= 3 rounds.
+fn shrink_program(rf: &ReplayFile) -> ReplayFile {
+    let mut best = rf.clone();
+    if rf.labels.contains(&simcore::oracle::Label::Hang) {
+        return best;
+    }
+    for round in 0..3 {
+        let cands = simcore::shrink::variants(&best.program, &best.spec, 40);
+        if cands.is_empty() {
+            break;
+        }
+        let dir = sim_dir().join(gen_dir_name("genr"));
+        let c = CrateSpec {
+            name: "c_shrink".into(),
+            programs: cands
+                .iter()
+                .enumerate()
+                .map(|(i, (p, _))| (i, p.clone()))
+                .collect(),
+        };
+        write_workspace(&dir, std::slice::from_ref(&c));
+        let (exes, _warnings) = build(&dir, std::slice::from_ref(&c), 300);
+        let exe = match exes.get("c_shrink") {
+            Some(e) => e.clone(),
+            None => {
+                eprintln!("[lexsim] program shrinking round {}: candidate batch does not build, keeping the current program", round);
+                break;
+            }
+        };
+        let tmp = dir.join("tmp");
+        let _ = std::fs::create_dir_all(&tmp);
+        let args = WorkerArgs {
+            mode: "many".into(),
+            property: best.property.clone(),
+            tier: "quick".into(),
+            seed: best.seed,
+            round: best.round,
+            total_programs: cands.len(),
+            base_runs: 1,
+            start_base: 0,
+            max_violations: 1,
+            hang_secs: 60,
+            replay: Some(best.clone()),
+            describe: None,
+            many: Some(
+                cands
+                    .iter()
+                    .enumerate()
+                    .map(|(i, (_, s))| (i, s.clone()))
+                    .collect(),
+            ),
+        };
+        let mut child = spawn_worker(&exe, &args, &tmp, "many");
+        let pid = child.id() as i32;
+        let killer = std::thread::spawn(move || {
+            let t = Instant::now();
+            while t.elapsed().as_secs() < 120 {
+                std::thread::sleep(Duration::from_millis(200));
+                if unsafe { libc::kill(pid, 0) } != 0 {
+                    return;
+                }
+            }
+            unsafe {
+                libc::kill(pid, libc::SIGKILL);
+            }
+        });
+        let outs = read_worker(&mut child);
+        let _ = child.wait();
+        drop(killer);
+        let mut improved = false;
+        for o in outs {
+            if let WorkerOut::Many(v) = o {
+                let mut reps: Vec<ReplayFile> = v["results"]
+                    .as_array()
+                    .map(|a| {
+                        a.iter()
+                            .filter_map(|x| {
+                                serde_json::from_value::<ReplayFile>(x["replay"].clone()).ok()
+                            })
+                            .collect()
+                    })
+                    .unwrap_or_default();
+                reps.sort_by_key(|r| {
+                    (simcore::shrink::program_size(&r.program), r.spec.text.len())
+                });
+                if let Some(r) = reps.into_iter().next() {
+                    let mut r = r;
+                    r.program_index = best.program_index;
+                    best = r;
+                    improved = true;
+                }
+            }
+        }
+        if !improved {
+            break;
+        }
+    }
+    best
+}
+
 fn cmd_replay(path: &str) -> i32 {
-    let s = std::fs::read_to_string(path).unwrap_or_else(|e| harness_error(&format!("cannot read {}: {}", path, e)));
-    let rf: ReplayFile = serde_json::from_str(&s).unwrap_or_else(|e| harness_error(&format!("not a replay file: {}", e)));
+    let s = std::fs::read_to_string(path)
+        .unwrap_or_else(|e| harness_error(&format!("cannot read {}: {}", path, e)));
+    let rf: ReplayFile = serde_json::from_str(&s)
+        .unwrap_or_else(|e| harness_error(&format!("not a replay file: {}", e)));
     let _lock = lock();
     match replay_run(&rf) {
         None => harness_error("the replay crate could not be built or run"),
@@ -609,7 +814,10 @@ fn cmd_replay(path: &str) -> i32 {
         }
         Some((false, v)) => {
             println!("replayed: {}", v);
-            println!("not reproduced on the current tree: property={} replay={}", rf.property, path);
+            println!(
+                "not reproduced on the current tree: property={} replay={}",
+                rf.property, path
+            );
             0
         }
     }
@@ -625,7 +833,7 @@ fn lock() -> Lock {
         .create(true)
         .write(true)
         .truncate(false)
-        .open(sim_dir().join(".lock"))
+        .open(sim_dir().join(format!(".lock-{}", gen_dir_name("gen"))))
         .unwrap_or_else(|e| harness_error(&format!("lock file: {}", e)));
     unsafe {
         libc::flock(f.as_raw_fd(), libc::LOCK_EX);
@@ -688,7 +896,9 @@ fn cmd_run(property: &str, tier: &str, seed: u64) -> i32 {
         violations.extend(hangs.iter().cloned());
     }
     let known = load_known();
-    let replays = std::env::var("LEXSIM_REPLAYS_DIR").map(PathBuf::from).unwrap_or_else(|_| verif_dir().join("replays"));
+    let replays = std::env::var("LEXSIM_REPLAYS_DIR")
+        .map(PathBuf::from)
+        .unwrap_or_else(|_| verif_dir().join("replays"));
     let _ = std::fs::create_dir_all(&replays);
     let mut exit = 0;
     let mut reported = 0usize;
@@ -697,7 +907,11 @@ fn cmd_run(property: &str, tier: &str, seed: u64) -> i32 {
     let mut seen_keys: BTreeSet<String> = BTreeSet::new();
     for rf in &violations {
         let key = finding_key(rf);
-        if let Some((_, _, desc)) = known.known.iter().find(|(p, k, _)| p == property && *k == key) {
+        if let Some((_, _, desc)) = known
+            .known
+            .iter()
+            .find(|(p, k, _)| p == property && *k == key)
+        {
             println!("KNOWN-FINDING: property={} {}", property, desc);
             known_hits += 1;
             continue;
@@ -705,7 +919,17 @@ fn cmd_run(property: &str, tier: &str, seed: u64) -> i32 {
         if reported >= 5 || !seen_keys.insert(key.clone()) {
             continue;
         }
-        let path = replays.join(format!("{}-{}-r{}-{}-{}.json", property, seed, rf.round, rf.base_run, rf.variant));
+        let path = replays.join(format!(
+            "{}-{}-r{}-{}-{}.json",
+            property, seed, rf.round, rf.base_run, rf.variant
+        ));
+        let shrunk;
+        let rf = if reported < 3 && std::env::var("LEXSIM_NO_SHRINK").is_err() {
+            shrunk = shrink_program(rf);
+            &shrunk
+        } else {
+            rf
+        };
         std::fs::write(&path, serde_json::to_string_pretty(rf).unwrap())
             .unwrap_or_else(|e| harness_error(&format!("cannot write replay file: {}", e)));
         if !verified_one {
@@ -713,11 +937,18 @@ fn cmd_run(property: &str, tier: &str, seed: u64) -> i32 {
             verified_one = true;
             match replay_run(rf) {
                 Some((true, _)) => {}
-                Some((false, v)) => harness_error(&format!("violation {} does not replay in a fresh process: {}", path.display(), v)),
+                Some((false, v)) => harness_error(&format!(
+                    "violation {} does not replay in a fresh process: {}",
+                    path.display(),
+                    v
+                )),
                 None => harness_error("the replay crate could not be built or run"),
             }
         }
-        println!("finding key={} class={:?} call={} :: expected {} :: got {} :: {}", key, rf.class, rf.call, rf.expected, rf.got, rf.note);
+        println!(
+            "finding key={} class={:?} call={} :: expected {} :: got {} :: {}",
+            key, rf.class, rf.call, rf.expected, rf.got, rf.note
+        );
         println!("VIOLATION property={} replay={}", property, path.display());
         reported += 1;
         exit = 1;
@@ -728,7 +959,11 @@ fn cmd_run(property: &str, tier: &str, seed: u64) -> i32 {
         .filter(|p| total.probes.counts.get(**p).copied().unwrap_or(0) == 0)
         .map(|s| s.to_string())
         .collect();
-    let runs_per_hour = if wall > 0.0 { total.evaluations as f64 * 3600.0 / wall } else { 0.0 };
+    let runs_per_hour = if wall > 0.0 {
+        total.evaluations as f64 * 3600.0 / wall
+    } else {
+        0.0
+    };
     let coverage = serde_json::json!({
         "evaluations": total.evaluations,
         "distinct_nontrivial": total.distinct_nontrivial,
@@ -777,7 +1012,9 @@ fn cmd_run(property: &str, tier: &str, seed: u64) -> i32 {
         wall_s: wall,
         violations: (violations.len() - known_hits) as i64,
     };
-    let evdir = std::env::var("LEXSIM_EVIDENCE_DIR").map(PathBuf::from).unwrap_or_else(|_| verif_dir().join("evidence"));
+    let evdir = std::env::var("LEXSIM_EVIDENCE_DIR")
+        .map(PathBuf::from)
+        .unwrap_or_else(|_| verif_dir().join("evidence"));
     let _ = std::fs::create_dir_all(&evdir);
     let evpath = evdir.join(format!("{}.json", property));
     std::fs::write(&evpath, serde_json::to_string_pretty(&ev).unwrap())
@@ -796,14 +1033,23 @@ fn cmd_run(property: &str, tier: &str, seed: u64) -> i32 {
         total.history_digest
     );
     if !total.other_divergences.is_empty() {
-        println!("[lexsim] divergences owned by other properties (reported by their own checks): {:?}", total.other_divergences);
+        println!(
+            "[lexsim] divergences owned by other properties (reported by their own checks): {:?}",
+            total.other_divergences
+        );
     }
     exit
 }
 
 fn expected_probes(property: &str) -> Vec<&'static str> {
     match property {
-        "C03" => vec!["switch_to_set_0", "switch_to_set_1", "switch_to_set_2", "failure_in_other_set", "match_in_non_init_set_after_entry"],
+        "C03" => vec![
+            "switch_to_set_0",
+            "switch_to_set_1",
+            "switch_to_set_2",
+            "failure_in_other_set",
+            "match_in_non_init_set_after_entry",
+        ],
         "C05" => vec![
             "rewind_from_eof",
             "rewind_candidate_ends_at_eof",
@@ -816,7 +1062,14 @@ fn expected_probes(property: &str) -> Vec<&'static str> {
             "poll_after_end",
             "poll_after_latch_with_resumed_source",
         ],
-        "C06" => vec!["rewind", "rewind_across_newline", "rewind_across_multibyte", "action_with_accumulated_match", "fork", "fork_after_failure"],
+        "C06" => vec![
+            "rewind",
+            "rewind_across_newline",
+            "rewind_across_multibyte",
+            "action_with_accumulated_match",
+            "fork",
+            "fork_after_failure",
+        ],
         "C07" => vec![
             "failure_at_first_char",
             "failure_mid_lexeme",
@@ -826,11 +1079,35 @@ fn expected_probes(property: &str) -> Vec<&'static str> {
             "custom_error_after_reset",
             "rewind",
         ],
-        "C08" => vec!["failure_in_init", "failure_in_other_set", "token_after_recovery", "consecutive_failures", "failure_context_starved_R1"],
-        "C09" => vec!["rewind", "failure_in_init", "continue_without_reset", "boundary_in_other_set"],
-        "C10" => vec!["continue_without_reset", "continue_with_reset", "action_with_accumulated_match", "custom_error", "rewind", "return"],
+        "C08" => vec![
+            "failure_in_init",
+            "failure_in_other_set",
+            "token_after_recovery",
+            "consecutive_failures",
+            "failure_context_starved_R1",
+        ],
+        "C09" => vec![
+            "rewind",
+            "failure_in_init",
+            "continue_without_reset",
+            "boundary_in_other_set",
+        ],
+        "C10" => vec![
+            "continue_without_reset",
+            "continue_with_reset",
+            "action_with_accumulated_match",
+            "custom_error",
+            "rewind",
+            "return",
+        ],
         "C14" => vec!["rewind", "failure_in_init"],
-        "C15" => vec!["fork", "fork_after_end", "fork_after_failure", "fork_in_non_init_set", "drop"],
+        "C15" => vec![
+            "fork",
+            "fork_after_end",
+            "fork_after_failure",
+            "fork_in_non_init_set",
+            "drop",
+        ],
         _ => vec![],
     }
 }
@@ -845,7 +1122,11 @@ fn cmd_setup() -> i32 {
     for w in warnings {
         println!("HARNESS-WARNING: {}", w);
     }
-    println!("[lexsim] setup: {} of {} corpus crates built", exes.len(), crates.len());
+    println!(
+        "[lexsim] setup: {} of {} corpus crates built",
+        exes.len(),
+        crates.len()
+    );
     if exes.is_empty() {
         2
     } else {
@@ -857,7 +1138,14 @@ fn cmd_dump(seed: u64, round: u32, per_crate: usize) -> i32 {
     let (crates, total) = corpus(seed, round, per_crate);
     for c in &crates {
         for (i, p) in &c.programs {
-            println!("// program {} of {} ({}) in {}\n{}", i, total, p.origin, c.name, simcore::render::definition(p));
+            println!(
+                "// program {} of {} ({}) in {}\n{}",
+                i,
+                total,
+                p.origin,
+                c.name,
+                simcore::render::definition(p)
+            );
         }
     }
     0
@@ -865,10 +1153,16 @@ fn cmd_dump(seed: u64, round: u32, per_crate: usize) -> i32 {
 
 fn main() {
     let args: Vec<String> = std::env::args().collect();
-    let seed: u64 = std::env::var("VERIF_SEED").ok().and_then(|s| s.trim().parse().ok()).unwrap_or(DEFAULT_SEED);
+    let seed: u64 = std::env::var("VERIF_SEED")
+        .ok()
+        .and_then(|s| s.trim().parse().ok())
+        .unwrap_or(DEFAULT_SEED);
     let code = match args.get(1).map(|s| s.as_str()) {
         Some("run") => {
-            let property = args.get(2).cloned().unwrap_or_else(|| harness_error("usage: runner run <property> <tier>"));
+            let property = args
+                .get(2)
+                .cloned()
+                .unwrap_or_else(|| harness_error("usage: runner run <property> <tier>"));
             let tier = args
                 .get(3)
                 .cloned()
@@ -876,10 +1170,19 @@ fn main() {
                 .unwrap_or_else(|| "quick".into());
             cmd_run(&property, &tier, seed)
         }
-        Some("replay") => cmd_replay(args.get(2).unwrap_or_else(|| harness_error("usage: runner replay <file>"))),
+        Some("replay") => cmd_replay(
+            args.get(2)
+                .unwrap_or_else(|| harness_error("usage: runner replay <file>")),
+        ),
         Some("setup") => cmd_setup(),
-        Some("dump") => cmd_dump(seed, 0, args.get(2).and_then(|s| s.parse().ok()).unwrap_or(5)),
-        _ => harness_error("usage: runner run <property> <tier> | replay <file> | setup | dump [n]"),
+        Some("dump") => cmd_dump(
+            seed,
+            0,
+            args.get(2).and_then(|s| s.parse().ok()).unwrap_or(5),
+        ),
+        _ => {
+            harness_error("usage: runner run <property> <tier> | replay <file> | setup | dump [n]")
+        }
     };
     let _ = std::io::stdout().flush();
     std::process::exit(code);
